@@ -148,6 +148,124 @@ def writer_key_table(facts, writer, key_enum):
     return rows, lits
 
 
+def _default_value(facts, e, depth=0):
+    """symbolic default: ('bool', b) | ('empty',) | ('num', v) | ('variant', path) | None"""
+    e = H.peel(e)
+    if not isinstance(e, dict) or depth > 4:
+        return None
+    k = e.get('k')
+    if k == 'lit':
+        if e.get('t') == 'bool':
+            return ('bool', bool(e['v']))
+        if e.get('t') in ('int', 'float'):
+            return ('num', float(e['v']))
+        if e.get('t') == 'str' and e['v'] == '':
+            return ('empty',)
+        return None
+    if k == 'unary' and e.get('op') == 'Neg':
+        v = _default_value(facts, e['e'], depth + 1)
+        return ('num', -v[1]) if v and v[0] == 'num' else None
+    if k == 'path':
+        d = e.get('def', '')
+        if e.get('dk', '').startswith(('Ctor', 'Variant')) or 'Ctor' in e.get('dk', ''):
+            return ('variant', d)
+        c = facts.consts.get(d)
+        if c is not None and 'v' in c and isinstance(c['v'], (int, float)) and not isinstance(c['v'], bool):
+            return ('num', float(c['v']))
+        return ('variant', d) if '::' in d else None
+    if k in ('call', 'mcall'):
+        d = e['f'].get('def', '') if k == 'call' and e['f'].get('k') == 'path' else e.get('def', '')
+        name = e['f'].get('name') if k == 'call' and e['f'].get('k') == 'path' else e.get('name')
+        ty = e.get('ty', '') or ''
+        if name in ('new', 'default') and ty in ('std::string::String', 'String'):
+            return ('empty',)
+        if name == 'default':
+            # `T::default()`: the body of T's Default impl
+            for pth, h in facts.hir.items():
+                if pth.endswith(' as std::default::Default>::default') and pth.startswith('<' + ty + ' '):
+                    body = h['body']
+                    tail = body.get('expr') if body.get('k') == 'block' and not body.get('stmts') else body
+                    return _default_value(facts, tail, depth + 1)
+            if ty == 'bool':
+                return ('bool', False)
+            if ty in ('i32', 'f64', 'f32', 'u8', 'usize', 'i64'):
+                return ('num', 0.0)
+        return None
+    return None
+
+
+def check_omitted_is_default(facts, out, sec, dec_ty, key_enum, writer, dtab):
+    """K12: a key that is left out when its field has some value X reads back as the decoder's default for that
+    field, so X must be that default (`if self.f != X { write }`, `if self.flag { write 1 }`, `if !s.is_empty()`)."""
+    hfn = facts.hir.get(writer)
+    dflt = None
+    for pth, h in facts.hir.items():
+        if pth == '<%s as std::default::Default>::default' % dec_ty:
+            dflt = h
+    if hfn is None:
+        return 0
+    vh = H.inlined_fn(facts, hfn, depth=2)
+    lits = {}
+    if dflt is not None:
+        def vs(n, anc):
+            if n.get('k') == 'struct':
+                for f in n.get('fields', []):
+                    lits.setdefault(f['n'], f['e'])
+        H.walk(H.inlined_fn(facts, dflt, depth=1)['body'], vs)
+    n = 0
+
+    def own_field(e):
+        fc = H.field_chain(H.peel(e))
+        return fc[1][-1] if fc and fc[0] == 'self' and fc[1] else None
+
+    def visit(x, path):
+        nonlocal n
+        if x.get('k') != 'if' or 'e' in x:
+            return
+        # keys written in the then-branch
+        keys = []
+
+        def vk(y, anc):
+            if y.get('k') == 'path' and y.get('def', '').startswith(key_enum + '::'):
+                keys.append(y['name'])
+        H.walk(x['t'], vk)
+        if not keys:
+            return
+        c = H.peel(x['c'])
+        pol = True
+        while isinstance(c, dict) and c.get('k') == 'unary' and c.get('op') == 'Not':
+            c = H.peel(c['e'])
+            pol = not pol
+        fld, omitted = None, None
+        if own_field(c) and pol:
+            fld, omitted = own_field(c), ('bool', False)
+        elif own_field(c):
+            fld, omitted = own_field(c), ('bool', True)
+        elif c.get('k') == 'mcall' and c.get('name') == 'is_empty' and own_field(c['recv']) and not pol:
+            fld, omitted = own_field(c['recv']), ('empty',)
+        elif c.get('k') == 'binary' and c.get('op') in ('Ne', 'Eq') and (c['op'] == 'Ne') == pol:
+            for a_, b_ in ((c['a'], c['b']), (c['b'], c['a'])):
+                if own_field(a_):
+                    fld, omitted = own_field(a_), _default_value(facts, b_)
+                    if omitted is None:
+                        omitted = ('unknown',)
+        if fld is None:
+            return          # conditions on other things are K1b's business; `> 0` forms are the statement's exclusions
+        for key in sorted(set(keys)):
+            dfields = {f[-1] for f in dtab.get(key, set())}
+            if fld not in dfields:
+                continue
+            n += 1
+            want = _default_value(facts, lits[fld]) if fld in lits else None
+            ok = want is not None and omitted == want
+            out.add('KT-K12', writer, 'omitted-is-default:' + key, 'src/encode.rs:%s' % x.get('ln', 0), ok,
+                    '' if ok else ('key `%s` is left out when `%s` is %s, but a decoder that does not see the key keeps its '
+                                   'default %s: that value does not survive encode -> decode') % (key, fld, omitted, want),
+                    ordinal=False)
+    H.walk_paths(vh['body'], visit)
+    return n
+
+
 SECTION_HEADER = {'general': 'General', 'editor': 'Editor', 'metadata': 'Metadata', 'difficulty': 'Difficulty'}
 
 
@@ -173,6 +291,7 @@ def run(facts, out):
         if not dtab or wt is None:
             continue
         rows, lits = wt
+        check_omitted_is_default(facts, out, sec, dec_ty, key_enum, writer, dtab)
         written = {}
         for r in rows:
             written.setdefault(r['variant'], []).append(r)
